@@ -55,7 +55,7 @@ func resolvedPath(v ssa.Value) string {
 	}
 	for k, prm := range h.Params {
 		if k < len(call.Call.Args) {
-			re := regexp.MustCompile(`(^|[^A-Za-z0-9_.])` + regexp.QuoteMeta(prm.Name()) + `($|[^A-Za-z0-9_])`)
+			re := regexp.MustCompile(`(^|[^A-Za-z0-9_.])` + regexp.QuoteMeta(pname(prm)) + `($|[^A-Za-z0-9_])`)
 			for i := 0; i < 3 && re.MatchString(p); i++ {
 				p = re.ReplaceAllString(p, "${1}"+strings.ReplaceAll(path(call.Call.Args[k]), "$", "$$")+"${2}")
 			}
@@ -151,7 +151,7 @@ func effectSites(t *Tree, f *ssa.Function, depth int) []effectSite {
 				sub := map[string]string{}
 				for k, prm := range cal.Params {
 					if k < len(a) {
-						sub[prm.Name()] = resolvedPath(a[k])
+						sub[pname(prm)] = resolvedPath(a[k])
 					}
 				}
 				substStack = append(substStack, sub)
@@ -161,7 +161,7 @@ func effectSites(t *Tree, f *ssa.Function, depth int) []effectSite {
 					// an effect whose key is expressed in the caller's terms needs no "via": it is the caller's effect
 					local := false
 					for _, prm := range cal.Params {
-						if regexp.MustCompile(`(^|[^A-Za-z0-9_.])` + regexp.QuoteMeta(prm.Name()) + `($|[^A-Za-z0-9_])`).MatchString(e.Desc) {
+						if regexp.MustCompile(`(^|[^A-Za-z0-9_.])` + regexp.QuoteMeta(pname(prm)) + `($|[^A-Za-z0-9_])`).MatchString(e.Desc) {
 							local = true
 						}
 					}
